@@ -125,14 +125,29 @@ func (p *Proposal) PendingMessage() *PendingMessage {
 }
 
 func (p *Proposal) Message() (*Message, error) {
-	buf := bytes.NewBuffer(p.Data())
+	data, err := p.data()
+	if err != nil {
+		return nil, err
+	}
+	buf := bytes.NewBuffer(data)
 	m := new(Message)
-	err := m.ReadFrom(buf)
+	err = m.ReadFrom(buf)
 	return m, err
 }
 
 // Data returns the decompressed raw message
 func (p *Proposal) Data() []byte {
+	data, err := p.data()
+	if err != nil {
+		panic(err) //TODO: Should return error
+	}
+	return data
+}
+
+// data returns the decompressed raw message, or an error if the compressed
+// data is corrupt. This includes the decompressor's own verdict on Close
+// (checksum and size).
+func (p *Proposal) data() ([]byte, error) {
 	var r io.ReadCloser
 	var err error
 
@@ -144,15 +159,18 @@ func (p *Proposal) Data() []byte {
 	}
 
 	if err != nil {
-		panic(err) //TODO: Should return error
+		return nil, err
 	}
 
 	var buf bytes.Buffer
 	if _, err := io.Copy(&buf, r); err != nil {
-		panic(err) //TODO
+		return nil, err
+	}
+	if err := r.Close(); err != nil {
+		return nil, err
 	}
 
-	return buf.Bytes()
+	return buf.Bytes(), nil
 }
 
 func parseProposal(line string, prop *Proposal) (err error) {
